@@ -341,6 +341,26 @@ pub struct XReplay {
     /// the shadowed spelling without user-level shadowing (pool names kept), if any
     #[serde(default)]
     pub deshadowed_twin: Option<String>,
+    /// outcome of the generator-side reference (stdout, end) for generated programs
+    #[serde(default)]
+    pub expected: Option<Expected>,
+}
+
+/// what the generator-side reference machine (`genref`, run on the generated tree, independent of
+/// the repository's parser and checker) computed for a generated program
+#[derive(Serialize, Deserialize, Clone, Debug, PartialEq, Eq)]
+pub struct Expected {
+    pub stdout: String,
+    pub end: String,
+}
+
+impl Expected {
+    pub fn of(o: &funref::FunOutcome) -> Option<Expected> {
+        match &o.end {
+            FunEnd::Budget => None,
+            e => Some(Expected { stdout: String::from_utf8_lossy(&o.stdout).to_string(), end: format!("{e:?}") }),
+        }
+    }
 }
 
 #[derive(Clone, Debug, Default, Serialize, Deserialize)]
@@ -401,7 +421,7 @@ pub enum Verdict {
 }
 
 /// one whole-executable run of `src` with decimal `argv` under `plan`
-pub fn run_source(rt: &CRuntime, src: &str, argv: &[String], plan: &EnvPlan, keys: u64, stats: &mut XStats, check_heap: bool) -> Verdict {
+pub fn run_source(rt: &CRuntime, src: &str, argv: &[String], plan: &EnvPlan, keys: u64, stats: &mut XStats, check_heap: bool, expected: Option<&Expected>) -> Verdict {
     // the source semantics sees the mathematically intended integers
     let mut args = Vec::new();
     for a in argv {
@@ -420,6 +440,19 @@ pub fn run_source(rt: &CRuntime, src: &str, argv: &[String], plan: &EnvPlan, key
         }
     };
     stats.ref_steps += f.reference.steps;
+    // the parsed and checked program must mean what the generator wrote
+    if let (Some(want), Some(got)) = (expected, Expected::of(&f.reference)) {
+        *stats.probes.entry("generator-side reference compared".into()).or_default() += 1;
+        if *want != got {
+            return Verdict::Viol(
+                "FrontEnd".into(),
+                format!(
+                    "the program as parsed and checked means something else than the program as written: the source semantics of the written tree gives output {:?} and {}, the checked AST gives output {:?} and {}",
+                    want.stdout, want.end, got.stdout, got.end
+                ),
+            );
+        }
+    }
     let rv = match &f.reference.end {
         FunEnd::Done(v) => *v,
         FunEnd::Undefined(_) => return Verdict::Discard("reference undefined (division)".into()),
@@ -846,6 +879,7 @@ pub fn xworker(id: &str, tier: &str, seed: u64, w: u64, n: u64) -> i32 {
                         minimised: true,
                         unique_twin: None,
                         deshadowed_twin: None,
+                        expected: None,
                     };
                     emit(serde_json::json!({"found": rp}));
                 }
@@ -886,6 +920,7 @@ pub fn xworker(id: &str, tier: &str, seed: u64, w: u64, n: u64) -> i32 {
                     minimised: true,
                     unique_twin: None,
                     deshadowed_twin: None,
+                        expected: None,
                 };
                 emit(serde_json::json!({"found": rp}));
             }
@@ -894,6 +929,7 @@ pub fn xworker(id: &str, tier: &str, seed: u64, w: u64, n: u64) -> i32 {
         }
         // choose the program
         let mut desh: Option<String> = None;
+        let mut expected: Option<Expected> = None;
         let (kind, src, twin, argv, shadow): (String, String, Option<String>, Vec<String>, bool) = if id == "C20" {
             let (s, a) = c20_program(&mut rng);
             ("c20-args".into(), s, None, a, false)
@@ -909,6 +945,13 @@ pub fn xworker(id: &str, tier: &str, seed: u64, w: u64, n: u64) -> i32 {
             let cfg = FunCfg::swarm(&mut rng, if tier == "thorough" { 120 } else { 60 });
             let p = fungen::generate(&mut rng, &cfg);
             let argv = p.args.iter().map(|a| a.to_string()).collect();
+            let g = crate::genref::run(&p.tree, &p.args, 300_000);
+            if let FunEnd::Stuck(m) = &g.end {
+                // (ill-typed generator slips are rejected by the front end before any comparison)
+                *sum.stats.notes.entry(format!("generator-side reference stuck: {}", m.chars().take(60).collect::<String>())).or_default() += 1;
+            } else {
+                expected = Expected::of(&g);
+            }
             // programs that only use pool names (x0, a0, ...) without shadowing still get the unique
             // twin: a failure that disappears with fresh names is a clash with generated names
             if p.shadowed != p.unique {
@@ -944,6 +987,7 @@ pub fn xworker(id: &str, tier: &str, seed: u64, w: u64, n: u64) -> i32 {
                     minimised: true,
                     unique_twin: None,
                     deshadowed_twin: None,
+                        expected: None,
                 };
                 emit(serde_json::json!({"found": rp}));
             }
@@ -968,6 +1012,7 @@ pub fn xworker(id: &str, tier: &str, seed: u64, w: u64, n: u64) -> i32 {
                         minimised: true,
                         unique_twin: None,
                     deshadowed_twin: None,
+                        expected: None,
                     };
                     emit(serde_json::json!({"found": rp}));
                 }
@@ -988,7 +1033,7 @@ pub fn xworker(id: &str, tier: &str, seed: u64, w: u64, n: u64) -> i32 {
         }
         for hostile in [false, true] {
             let plan = if hostile { hostile_plan(&mut prng, 1 << 16) } else { benign_plan(&mut prng, 1 << 16) };
-            let v = run_source(&rt, &src, &argv, &plan, keys, &mut sum.stats, true);
+            let v = run_source(&rt, &src, &argv, &plan, keys, &mut sum.stats, true, expected.as_ref());
             match v {
                 Verdict::Ok => {
                     if !hostile {
@@ -1026,6 +1071,7 @@ pub fn xworker(id: &str, tier: &str, seed: u64, w: u64, n: u64) -> i32 {
                         minimised: false,
                         unique_twin: twin.clone(),
                         deshadowed_twin: desh.clone(),
+                        expected: expected.clone(),
                     };
                     emit(serde_json::json!({"found": rp}));
                     break;
@@ -1085,7 +1131,7 @@ pub fn replay_x(rt: &CRuntime, rp: &XReplay) -> Result<Option<(String, String)>,
         }
         _ => {
             let keys = Rng::keyed(rp.verif_seed, rp.run, "hashkeys").next() | 1;
-            match run_source(rt, &rp.source, &rp.argv, &rp.plan, keys, &mut st, true) {
+            match run_source(rt, &rp.source, &rp.argv, &rp.plan, keys, &mut st, true, rp.expected.as_ref()) {
                 Verdict::Viol(c, m) => Ok(Some((c, m))),
                 Verdict::Harness(h) => Err(h),
                 _ => Ok(None),
@@ -1173,7 +1219,7 @@ pub fn minimise_x(rt: &CRuntime, rp: &mut XReplay, mut attempts: usize) {
         }
         // arguments towards 0
         for a in 0..rp.argv.len() {
-            if rp.argv[a] != "0" && attempts > 0 {
+            if rp.argv[a] != "0" && attempts > 0 && rp.expected.is_none() {
                 attempts -= 1;
                 let mut c = rp.clone();
                 c.argv[a] = "0".into();
